@@ -194,7 +194,8 @@ package zygo
 //@ C01 nopanic
 //@ C01,C15,C19 modifies stack.tos, stack.elements, elems(stack.elements)
 //@ C01,C15,C19 ensures wfs(stack) && stack.tos == old(stack.tos) + 1 && stack.elements[stack.tos] == elem
-//@ C01 ensures keeps: forall(k, 0 <= k && k <= old(stack.tos) ==> stack.elements[k] == old(stack.elements[k]))
+//@ C01,C15 ensures keeps: forall(k, 0 <= k && k <= old(stack.tos) ==> stack.elements[k] == old(stack.elements[k]))
+//@ C15 ensures same-or-new-array: sarr(stack.elements) == old(sarr(stack.elements)) || fresh(sarr(stack.elements))
 
 //@ func (*Stack).Pop
 //@ requires typeinv[Stack] wfs(stack)
@@ -465,6 +466,8 @@ package zygo
 //@ requires typeinv[Stack] wfs(stack)
 //@ C02,C04,C05,C15 modifies stack.tos, stack.elements, elems(stack.elements)
 //@ C02,C04,C05,C15 ensures wfs(stack) && stack.tos == old(stack.tos) + 1
+//@ C15 ensures keeps: forall(k, 0 <= k && k <= old(stack.tos) ==> stack.elements[k] == old(stack.elements[k]))
+//@ C15 ensures same-or-new-array: sarr(stack.elements) == old(sarr(stack.elements)) || fresh(sarr(stack.elements))
 //@ C04,C15 ensures top: typeis(stack.elements[stack.tos], DataStackElem) && stack.elements[stack.tos].(DataStackElem).expr == expr
 
 //@ func (*Stack).PopExpr
@@ -1236,3 +1239,38 @@ package zygo
 //@ C15 assert compound-templates-are-rebuilt @before call AddInstruction[*]: typeis(arg1, PushInstr) ==> !typeis(arg1.(PushInstr).expr, *SexpArray) && !typeis(arg1.(PushInstr).expr, *SexpHash) && !(typeis(arg1.(PushInstr).expr, *SexpPair) && properList(arg1.(PushInstr).expr))
 //@ func (*Generator).GenerateSyntaxQuote
 //@ C15 assert compound-templates-are-rebuilt @before call AddInstruction[*]: typeis(arg1, PushInstr) ==> !typeis(arg1.(PushInstr).expr, *SexpArray) && !typeis(arg1.(PushInstr).expr, *SexpHash) && !(typeis(arg1.(PushInstr).expr, *SexpPair) && properList(arg1.(PushInstr).expr))
+
+// array template: marker, then per element (marker, element, squash, explode), then vectorize;
+// hash template: marker, then per pair in reverse key order (value, then key, each wrapped the
+// same way), then hashize with the pair count and the type name of the template
+//@ func (*Generator).generateSyntaxQuoteArray
+//@ C15 assert opens-with-marker @before call AddInstruction[0]: arg0 == gen && typeis(arg1, PushInstr) && arg1.(PushInstr).expr == SexpMarker
+//@ C15 assert element-opens-with-marker @before call AddInstruction[1]: arg0 == gen && typeis(arg1, PushInstr) && arg1.(PushInstr).expr == SexpMarker
+//@ C15 assert element-is-squashed @before call AddInstruction[2]: arg0 == gen && typeis(arg1, SquashInstr)
+//@ C15 assert element-is-exploded @before call AddInstruction[3]: arg0 == gen && typeis(arg1, ExplodeInstr)
+//@ C15 assert closes-with-vectorize @before call AddInstruction[4]: arg0 == gen && typeis(arg1, VectorizeInstr)
+//@ C15 assert one-element-at-a-time @before call GenerateSyntaxQuote[0]: arg0 == gen && len(arg1) == 1 && arg1[0] == expr
+//@ func (*Generator).generateSyntaxQuoteHash
+//@ C15 assert opens-with-marker @before call AddInstruction[0]: arg0 == gen && typeis(arg1, PushInstr) && arg1.(PushInstr).expr == SexpMarker
+//@ C15 assert value-opens-with-marker @before call AddInstruction[1]: arg0 == gen && typeis(arg1, PushInstr) && arg1.(PushInstr).expr == SexpMarker
+//@ C15 assert value-is-squashed @before call AddInstruction[2]: arg0 == gen && typeis(arg1, SquashInstr)
+//@ C15 assert value-is-exploded @before call AddInstruction[3]: arg0 == gen && typeis(arg1, ExplodeInstr)
+//@ C15 assert key-opens-with-marker @before call AddInstruction[4]: arg0 == gen && typeis(arg1, PushInstr) && arg1.(PushInstr).expr == SexpMarker
+//@ C15 assert key-is-squashed @before call AddInstruction[5]: arg0 == gen && typeis(arg1, SquashInstr)
+//@ C15 assert key-is-exploded @before call AddInstruction[6]: arg0 == gen && typeis(arg1, ExplodeInstr)
+//@ C15 assert closes-with-hashize @before call AddInstruction[7]: arg0 == gen && typeis(arg1, HashizeInstr) && arg1.(HashizeInstr).HashLen == n && arg1.(HashizeInstr).TypeName == hash.TypeName
+//@ C15 assert value-first @before call GenerateSyntaxQuote[0]: arg0 == gen && len(arg1) == 1 && arg1[0] == val
+//@ C15 assert then-key @before call GenerateSyntaxQuote[1]: arg0 == gen && len(arg1) == 1 && arg1[0] == key
+//@ C15 assert reverse-key-order @before call HashGet[0]: arg0 == hash && arg2 == key && 0 <= i && i < n && key == hash.KeyOrder[n - i - 1]
+
+//@ func ListToArray
+//@ C15 pure
+//@ C15 ensures own-array: r1 == nil ==> fresh(sarr(r0))
+//@ C15 loop 0 invariant fresh(sarr(arr))
+// explode replaces the list on top of the stack by its elements (as many values as the list has)
+//@ func (ExplodeInstr).Execute
+//@ requires typeinv[Zlisp] distinctStacks(env)
+//@ requires typeinv[Stack] wfs(env.datastack)
+//@ ghost items := ret0 @after call ListToArray[0]
+//@ C15 ensures one-for-many: r0 == nil ==> env.datastack.tos == old(env.datastack.tos) - 1 + len(items) && env.pc == old(env.pc) + 1
+//@ C15 loop 0 invariant shape: env.datastack == old(env.datastack) && wfs(env.datastack) && 0 - 1 <= rangeindex && rangeindex < len(arr) && env.pc == old(env.pc) && env.datastack.tos == old(env.datastack.tos) - 1 + rangeindex + 1 && old(env.datastack.tos) >= 0
